@@ -17,6 +17,9 @@ func refTag(idx int, wt int) []byte { return refVarint(uint64(idx)<<3 | uint64(w
 
 // wire type of a type in a given position. opt is the tag option applying to it.
 func (e refEnc) wt(t *TyDef, opt string) int {
+	if t.K == "ext" {
+		return e.wt(extPayload[t.Name], opt)
+	}
 	u := t
 	for u.K == "named" {
 		if u.Elem.K == "time" {
@@ -56,6 +59,12 @@ func lenPrefixed(b []byte) []byte { return append(refVarint(uint64(len(b))), b..
 
 // body: the encoding of a present value without tag or length prefix.
 func (e refEnc) body(t *TyDef, v *Val, opt string) []byte {
+	if t.K == "ext" {
+		if t.Name == "null.Time" {
+			e.protoTime = false // package null always uses the original time codec
+		}
+		return e.body(extPayload[t.Name], v.P, "")
+	}
 	if t.K == "named" {
 		if t.Elem.K == "time" {
 			return nil
@@ -188,6 +197,12 @@ func (e refEnc) field(idx int, t *TyDef, v *Val, opt string) []byte {
 		// the pointee is written as a field of its own type, present even when zero
 		return e.present(idx, t.under().Elem, v.P, opt)
 	}
+	if u.K == "ext" {
+		if u.Name == "null.Time" {
+			e.protoTime = false
+		}
+		return e.present(idx, extPayload[u.Name], v.P, "")
+	}
 	return e.present(idx, t, v, opt)
 }
 
@@ -259,7 +274,11 @@ func nontrivialVal(t *TyDef, v *Val) bool {
 }
 
 func codecOp(name, cfg string, t *TyDef, tag string, rest ...*Sexp) *Sexp {
-	items := []*Sexp{A(name), A(cfg), t.Sexp(), A(hxs(tag))}
+	var c *Sexp = A(cfg)
+	if strings.HasPrefix(cfg, "(") {
+		c, _ = parseSexp(cfg)
+	}
+	items := []*Sexp{A(name), c, t.Sexp(), A(hxs(tag))}
 	return L(append(items, rest...)...)
 }
 
@@ -315,4 +334,96 @@ func runC05(r *Runner, g *Gen, tier string) string {
 		r.Do(codecOp("laws", cfg, t, "", v.Sexp(), A(hx(tags[g.r.Intn(len(tags))]))), nontrivialVal(t, v), "laws")
 	}
 	return "same generators as C01 (values without multi-entry maps); op = Codec.Size/Append with nil and non-nil tag and Read of the untagged body, called on the codec from CodecForType"
+}
+
+// ---- C09: explicit presence ------------------------------------------------------
+
+func init() { propRunners["C09"] = runC09 }
+
+var nullNames = []string{"null.Int", "null.Bool", "null.Float", "null.String", "null.Time"}
+
+// presenceType: a struct whose fields are pointers / null types / maps with
+// pointer or null values, nested, beside plain fields.
+func (g *Gen) presenceStruct(depth int) *TyDef {
+	n := 1 + g.r.Intn(5)
+	used := map[int]bool{}
+	var fs []*FieldDef
+	for i := 0; i < n; i++ {
+		idx := 1 + g.r.Intn(12)
+		for used[idx] {
+			idx = 1 + g.r.Intn(12)
+		}
+		used[idx] = true
+		var t *TyDef
+		opt := ""
+		switch g.r.Intn(9) {
+		case 0, 1:
+			t = Ext(nullNames[g.r.Intn(5)])
+			if t.Name == "null.String" && g.r.P(40) {
+				opt = ",intern"
+			}
+		case 2:
+			t = Ptr(g.vtypeNoPtr())
+		case 3:
+			t = Ptr(g.ftype())
+		case 4:
+			t = Ptr(g.ltypeNoPtr(depth - 1))
+		case 5:
+			var v *TyDef
+			if g.r.Bool() {
+				v = Ext(nullNames[g.r.Intn(5)])
+			} else {
+				v = Ptr(g.ltypeNoPtr(depth - 1))
+			}
+			t = Map(g.keyType(0), v)
+		case 6:
+			if depth > 0 {
+				t = g.presenceStruct(depth - 1)
+			} else {
+				t = Ptr(B("str"))
+			}
+		case 7:
+			if depth > 0 {
+				t = Ptr(g.presenceStruct(depth - 1))
+			} else {
+				t = Ptr(B("int8"))
+			}
+		default:
+			t = g.valueType(0) // plain field: no presence
+			for t.K == "ptr" {
+				t = t.Elem
+			}
+		}
+		fs = append(fs, &FieldDef{Name: fmt.Sprintf("F%d", i), Exported: true, Plenc: fmt.Sprint(idx) + opt, T: t})
+	}
+	return Struct(fs...)
+}
+
+func (g *Gen) vtypeNoPtr() *TyDef {
+	t := g.vtype()
+	for t.K == "ptr" {
+		t = t.Elem
+	}
+	return t
+}
+
+func (g *Gen) ltypeNoPtr(depth int) *TyDef {
+	t := g.ltype(depth)
+	for t.K == "ptr" {
+		t = t.Elem
+	}
+	return t
+}
+
+func runC09(r *Runner, g *Gen, tier string) string {
+	n := scale(tier, 4000, 250000)
+	for i := 0; i < n; i++ {
+		flags := g.pickCfg()
+		cfg := "(cfg " + flags + " null)"
+		t := g.presenceStruct(2)
+		b := 40
+		v := g.Value(t, &b)
+		r.Do(codecOp("rt", cfg, t, "", v.Sexp()), nontrivialVal(t, v), "rt.presence")
+	}
+	return "structs whose fields are pointers (to scalars, floats, strings, bytes, times, structs), null.Int/Bool/Float/String/Time (null.String also interned), maps with pointer or null values, nested and behind pointers, beside plain fields; pointees are nil / zero-or-empty / random with probability ~1/3 each; op = round trip; oracle: nil-ness / Valid flag and pointee preserved exactly, plain zero fields read back zero"
 }
